@@ -1880,6 +1880,72 @@ pub proof fn lemma_restrict_apply(v: u8, d: Data, items: Seq<Item>)
     }
 }
 
+// ---- HISTORIES: the induction over completed synchronisation steps ------------------------------------------------
+/// One completed synchronisation step, as the per-step lemmas above describe it (lemma_composition_step /
+/// lemma_composition_fallback / lemma_composition_downgrade conclude exactly these facts about a step):
+/// `rs`: the update handed to the target was a reset update; `items`: the item sequence the server wrote
+/// (full data set after a reset query, diff after a serial query); `st`: the state named in the End of Data.
+pub struct Round { pub rs: bool, pub items: Seq<Item>, pub st: State }
+pub open spec fn empty_data() -> Data {
+    Data { origins: Set::empty(), keys: Set::empty(), aspas: Map::empty() }
+}
+/// what the target holds after the first k rounds of history h at negotiated version v: it was handed
+/// `expected(v, items)` each time (conclusion `log == expected(v, items)` of the per-step lemmas), a reset
+/// update replaces its data, any other update is applied in order to what it held before
+pub open spec fn client_data(v: u8, h: Seq<Round>, k: int) -> Data
+    decreases k
+{
+    if k <= 0 { empty_data() }
+    else {
+        let r = h[k - 1];
+        apply_seq(if r.rs { empty_data() } else { client_data(v, h, k - 1) }, expected(v, r.items))
+    }
+}
+/// The contract ASSUMED of the data source (user code behind PayloadSource), over a history: `src(i)` is the payload
+/// set the source reports for the state named in round i's End of Data; a full data set builds it from nothing,
+/// a diff leads from the set of the state the client held (round i-1) to it.  The first round is a reset
+/// (the client has no state: `rs == (st0 is None)` in lemma_composition_step).
+pub open spec fn source_ok(h: Seq<Round>, src: spec_fn(int) -> Data) -> bool {
+    &&& h.len() > 0 ==> h[0].rs
+    &&& forall|i: int| 0 <= i < h.len() ==>
+            data_eq(#[trigger] src(i), apply_seq(if h[i].rs { empty_data() } else { src(i - 1) }, h[i].items))
+}
+/// WHOLE HISTORIES.  After any number k >= 1 of completed synchronisation steps (serial with fallback to reset, or
+/// reset, in any mixture; every protocol version), the announcements and withdrawals handed to the target,
+/// applied in order to its previous data, yield exactly the payload set the source reported for the state named
+/// in the last End of Data, restricted to the payload types the negotiated version carries.
+pub proof fn lemma_history(v: u8, h: Seq<Round>, src: spec_fn(int) -> Data, k: int)
+    requires source_ok(h, src), 1 <= k <= h.len(),
+    ensures data_eq(client_data(v, h, k), restrict(v, src(k - 1))),
+    decreases k,
+{
+    let r = h[k - 1];
+    let e = empty_data();
+    assert(data_eq(restrict(v, e), e));
+    assert(data_eq(src(k - 1), apply_seq(if r.rs { e } else { src(k - 2) }, r.items)));
+    if r.rs {
+        lemma_restrict_apply(v, e, r.items);
+        lemma_apply_seq_eq(restrict(v, e), e, expected(v, r.items));
+        lemma_apply_seq_eq(src(k - 1), apply_seq(e, r.items), Seq::<Item>::empty());
+    } else {
+        assert(k >= 2);
+        lemma_history(v, h, src, k - 1);
+        lemma_restrict_apply(v, src(k - 2), r.items);
+        lemma_apply_seq_eq(client_data(v, h, k - 1), restrict(v, src(k - 2)), expected(v, r.items));
+        lemma_apply_seq_eq(src(k - 1), apply_seq(src(k - 2), r.items), Seq::<Item>::empty());
+    }
+}
+/// vacuity guard: a one-round history (reset with an empty data set) satisfies the source contract
+pub proof fn reach_history()
+    ensures ({
+        let h = seq![Round { rs: true, items: Seq::<Item>::empty(), st: State { session: 1, serial: Serial(5) } }];
+        source_ok(h, |i: int| empty_data())
+    }),
+{
+    let h = seq![Round { rs: true, items: Seq::<Item>::empty(), st: State { session: 1, serial: Serial(5) } }];
+    assert(apply_seq(empty_data(), h[0].items) == empty_data());
+}
+
 // ---- vacuity guards ------------------------------------------------------------------------------------------
 /// a concrete version-0 exchange without items: cache response (session 1) ++ end of data (session 1, serial 5).
 /// It is a response in the sense of the server contract, the client's loop function completes on it, and the
